@@ -80,6 +80,16 @@ fn main() {
             });
             println!("{}", o);
         }
+        Some("ksearch") => {
+            // vreplay ksearch <scenario> <seed> <budget> <obligation>...
+            let seed: u64 = args[3].parse().unwrap();
+            let budget: u64 = args[4].parse().unwrap();
+            let wanted: Vec<String> = args[5..].to_vec();
+            match vk::registry::search_native(&args[2], seed, budget, &wanted) {
+                Some((vals, fails)) => println!("{}", serde_json::json!({"found": true, "vals": vals, "fails": fails})),
+                None => println!("{}", serde_json::json!({"found": false})),
+            }
+        }
         Some("http") => {
             let txt = std::fs::read_to_string(&args[2]).expect("replay file");
             let j: serde_json::Value = serde_json::from_str(&txt).expect("json");
